@@ -49,3 +49,11 @@ func init() {
 		NotCovered:  "equality of answers across histories on concrete data.",
 	}
 }
+
+func init() {
+	Properties["C06"] = PropertySpec{
+		Rules:       []string{"R-SIBSHAPE", "R-RANGE"},
+		Explanation: "Index queries equal brute force, reduced to structural conditions on the query-side cell location and on the Shape accessors.",
+		NotCovered:  "that every edge is listed in every index cell it meets (clipping arithmetic); numeric behaviour of the crossing tests.",
+	}
+}
